@@ -428,12 +428,14 @@ pub fn run(ctx: &Ctx) {
     let ra: [&str; 7] = ["&", "a", "b", ";", "#", "1", "x"];
     let rk = ra.len() as u64;
     let rlen = ctx.tier.pick(6, 7);
-    ctx.layer("custom_resolver", 6, count_upto(rk, rlen), json!({"alphabet": ra, "max_len": rlen, "resolver": {"a": "X&a;Y", "b": "", "ab": "<"}}), |i, acc| {
+    ctx.layer("custom_resolver", 6, count_upto(rk, rlen), json!({"alphabet": ra, "max_len": rlen, "resolvers": [{"a": "X&a;Y", "b": "", "ab": "<"}, "catch-all: every name, also #-names, gets an answer"]}), |i, acc| {
         let mut digits = Vec::new();
         decode_upto(rk, rlen, i, &mut digits);
         let mut s = String::new();
         build(&ra, &digits, &mut s);
-        let resolve = |n: &str| -> Option<&'static str> {
+        // two callbacks: a small table, and a catch-all that answers every name — also names that start
+        // with `#`, which it must never be asked to decide (character references are the library's business)
+        let table = |n: &str| -> Option<&'static str> {
             match n {
                 "a" => Some("X&a;Y"),
                 "b" => Some(""),
@@ -441,41 +443,45 @@ pub fn run(ctx: &Ctx) {
                 _ => None,
             }
         };
-        acc.evaluations += 1;
-        acc.transitions += 1;
-        acc.traces += 1;
-        // reference: same scan as ref_unescape with the custom table
-        let expect: Result<String, ()> = (|| {
-            let mut out = String::new();
-            let mut rest = s.as_str();
-            while let Some(p) = rest.find('&') {
-                out.push_str(&rest[..p]);
-                let after = &rest[p + 1..];
-                let semi = after.find(';').ok_or(())?;
-                let body = &after[..semi];
-                if body.contains('&') {
-                    return Err(());
+        let catch_all = |n: &str| -> Option<&'static str> { Some(if n.starts_with('#') { "HASH" } else { "\u{FFFD}" }) };
+        for which in 0..2 {
+            let resolve: &dyn Fn(&str) -> Option<&'static str> = if which == 0 { &table } else { &catch_all };
+            acc.evaluations += 1;
+            acc.transitions += 1;
+            acc.traces += 1;
+            // reference: same scan as ref_unescape with the custom table
+            let expect: Result<String, ()> = (|| {
+                let mut out = String::new();
+                let mut rest = s.as_str();
+                while let Some(p) = rest.find('&') {
+                    out.push_str(&rest[..p]);
+                    let after = &rest[p + 1..];
+                    let semi = after.find(';').ok_or(())?;
+                    let body = &after[..semi];
+                    if body.contains('&') {
+                        return Err(());
+                    }
+                    if body.starts_with('#') {
+                        out.push(ref_entity(body)?);
+                    } else {
+                        out.push_str(resolve(body).ok_or(())?);
+                    }
+                    rest = &after[semi + 1..];
                 }
-                if body.starts_with('#') {
-                    out.push(ref_entity(body)?);
-                } else {
-                    out.push_str(resolve(body).ok_or(())?);
-                }
-                rest = &after[semi + 1..];
+                out.push_str(rest);
+                Ok(out)
+            })();
+            let got = guarded_mut(|| unescape_with(&s, |n| resolve(n)).map(|c| c.into_owned()).map_err(|e| format!("{:?}", e)));
+            let ok = match (&got, &expect) {
+                (Ok(Ok(a)), Ok(b)) => a == b,
+                (Ok(Err(_)), Err(())) => true,
+                _ => false,
+            };
+            if !ok {
+                acc.violation((6, i), format!("unescape_with({})({:?}) = {:?}, reference says {:?}", if which == 0 { "custom table" } else { "catch-all resolver" }, s, got, expect), json!({"kind": "string", "s": s}));
+            } else if s.contains('&') {
+                acc.nontrivial(h64(&("custom", which, &s)));
             }
-            out.push_str(rest);
-            Ok(out)
-        })();
-        let got = guarded(|| unescape_with(&s, resolve).map(|c| c.into_owned()).map_err(|e| format!("{:?}", e)));
-        let ok = match (&got, &expect) {
-            (Ok(Ok(a)), Ok(b)) => a == b,
-            (Ok(Err(_)), Err(())) => true,
-            _ => false,
-        };
-        if !ok {
-            acc.violation((6, i), format!("unescape_with(custom resolver)({:?}) = {:?}, reference says {:?}", s, got, expect), json!({"kind": "string", "s": s}));
-        } else if s.contains('&') {
-            acc.nontrivial(h64(&("custom", &s)));
         }
     });
 
